@@ -76,6 +76,7 @@ func main() {
 			"P2 all pairs of trees over names {a,b} with per-name state in {absent, file P, file Q, symlink->a, symlink->b, dir{}, dir{c:P}, dir{c:Q}, dir{c/d:P}} (81 trees, 6561 pairs); " +
 			"P3 the stride slice of C01's block-level family F1 (<=2 files on {a,d/b}, contents = <=2 symbols over 64KiB blocks {A,B} + tail in {none,1,B-1,B-1-prefix-of-A}), each pair with the plain patch and with the optimized patch (rediff, partitions 0 and 2). " +
 			"Each case: real WritePatch -> patcher + overlay bowl onto a copy of the old build with the stage folder outside it; snapshot right before Commit must equal the old build (and nothing may have been rewritten), Commit must return nil, snapshot after Commit must equal the new build (independent Lstat tree oracle, nothing extra). " +
+			"Variant xdev (binary built with move()'s rename replaced by the error of a rename across file systems, so that every move falls back to copy + remove) repeats P1, P2 and P4. " +
 			"Quick and thorough differ only in the stride of the P3 slice (3533 -> 201 pairs, 353 -> 2004 pairs). " +
 			"Non-trivial = the commit has >= 2 transpositions, or a transposition that needs a clash rename (.butler-rename), or a transposition whose source also has a pending overlay, or an overlay with a SKIP run (P3), or a kind change of a path (P2).",
 		Assumptions: []string{
@@ -86,7 +87,7 @@ func main() {
 			"a failure or panic of the optimizer itself (rediff/bsdiff) is not judged here (C07/C12): the case is recorded with outcome rediff-failed and skipped",
 			"case-insensitive file systems (fixExistingCase) are not exercised",
 		},
-		Variants:       []string{"sched"},
+		Variants:       []string{"sched", "xdev"},
 		QuickBudget:    120 * time.Second,
 		ThoroughBudget: 12 * time.Minute,
 	}, body)
@@ -361,6 +362,48 @@ func body(w *runner.W) {
 				}
 			}
 			mo.Done()
+		}
+		return
+	}
+
+	// ---------------- variant xdev: every rename of the commit phase fails ----------------
+	// (the stage folder on another file system: move() falls back to copy + remove; the
+	// binary is built with the one screw.Rename call of move() replaced by the error a rename
+	// across file systems gives; bowl's own debugBrokenRename switch is not used: it builds an
+	// os.PathError without cause, whose Error() panics inside move's debug line)
+	if w.Variant == "xdev" {
+		x1 := runner.NewSub(w, "xdev-P1-renames", run, runner.Variant("xdev"))
+		if x1.Active() {
+			trees := p1Trees()
+			for _, o := range trees {
+				for _, n := range trees {
+					x1.Do(Case{Fam: "P1", Old: o, New: n, Patch: "plain"})
+				}
+			}
+			x1.Done()
+		}
+		x2 := runner.NewSub(w, "xdev-P2-kinds", run, runner.Variant("xdev"))
+		if x2.Active() {
+			trees := p2Trees()
+			for _, o := range trees {
+				for _, n := range trees {
+					x2.Do(Case{Fam: "P2", Old: o, New: n, Patch: "plain"})
+				}
+			}
+			x2.Done()
+		}
+		x4 := runner.NewSub(w, "xdev-P4-kinds-three-names", run, runner.Variant("xdev"))
+		if x4.Active() {
+			trees := p4Trees()
+			step := 1
+			if w.Quick() {
+				step = 29
+			}
+			for k := 0; k < len(trees)*len(trees); k += step {
+				x4.Do(Case{Fam: "P4", Old: trees[k/len(trees)], New: trees[k%len(trees)], Patch: "plain"})
+			}
+			x4.Note("stride", step)
+			x4.Done()
 		}
 		return
 	}
